@@ -372,6 +372,31 @@ func evalT(t *Term, env map[string]*big.Rat) *big.Rat {
 	if v, ok := env[t.Key()]; ok {
 		return v
 	}
+	if t.Op == "call" && len(t.Args) == 2 && (t.S == "op|" || t.S == "op&" || t.S == "op^" || t.S == "op<<" || t.S == "op>>") {
+		a, b := evalT(t.Args[0], env), evalT(t.Args[1], env)
+		if a.IsInt() && b.IsInt() && a.Sign() >= 0 && b.Sign() >= 0 {
+			r := new(big.Int)
+			switch t.S {
+			case "op|":
+				r.Or(a.Num(), b.Num())
+			case "op&":
+				r.And(a.Num(), b.Num())
+			case "op^":
+				r.Xor(a.Num(), b.Num())
+			case "op<<":
+				if b.Num().Int64() > 62 {
+					panic("evalT: shift too large")
+				}
+				r.Lsh(a.Num(), uint(b.Num().Int64()))
+			case "op>>":
+				if b.Num().Int64() > 62 {
+					panic("evalT: shift too large")
+				}
+				r.Rsh(a.Num(), uint(b.Num().Int64()))
+			}
+			return new(big.Rat).SetInt(r)
+		}
+	}
 	if t.Op == "call" && (t.S == "op%" || t.S == "intmod") && len(t.Args) == 2 {
 		a, b := evalT(t.Args[0], env), evalT(t.Args[1], env)
 		if a.IsInt() && b.IsInt() && b.Sign() != 0 {
